@@ -462,7 +462,14 @@ func (e *Env) call(x *Expr) TV {
 		if e.old != nil {
 			n.st = e.old
 		}
-		return n.Tr(x.Args[0])
+		r := n.Tr(x.Args[0])
+		// old(m) of a map is the snapshot of its content, not just the (unchanged) reference
+		if r.Ty != nil {
+			if _, ok := r.Ty.Underlying().(*types.Map); ok {
+				return TV{n.mapValue(r), nil}
+			}
+		}
+		return r
 	case "len":
 		a := e.Tr(x.Args[0])
 		switch {
